@@ -1,6 +1,204 @@
 import Infretis.Model.Proto
-open Infretis.Proto
+import Infretis.Model.Fs
+open Infretis Infretis.Proto Infretis.Fs
 
-def handle (_toks : List String) : String := "bad-op"
+/-!
+Line protocol of the C08 driver (all tokens are naturals unless said otherwise):
+
+  key      := kind pn name          kind 0 pdir 1 acc 2 order 3 energy 4 traj 5 tfile 6 wfile
+  fstate   := tag c                 tag 0 absent 1 dir 2 empty 3 part 4 complete
+  list<T>  := n T₁ … Tₙ
+  pinfo    := pn cid list<(name cid)>
+  job      := list<nat> list<nat>
+  rec      := cstep rf list<nat> trajNum list<job>        rf = 0 none | R+1
+  rfile    := 0 | 1 | 2 | 3 rec
+  disk     := list<(key fstate)> list<nat> garbled torn rfile rfile
+  cfg      := n deleteOld deleteAll variant                variant 0 asIs 1 repaired
+  mem      := cstep rf list<pinfo> trajNum list<(pn list<nat>)> list<job>
+  acc      := pinfo cid list<(name cid)>
+  choice   := list<acc> list<pinfo> list<job> inc halfRows halfTorn
+  manifest := list<(cid list<nat>)>
+
+  step  cfg mem disk choice              → "<mem'> | <disk'> | <effects>"
+  crash cfg mem disk choice manifest k half
+        → "<disk'> | out=<..> out0=<..> rec=<..> present=<0/1> rows=<0/1> trunc=<0/1> rowwin=<0/1> restored=<mem>"
+-/
+
+abbrev P (α : Type) := List String → Option (α × List String)
+
+def pNat : P Nat
+  | [] => none
+  | t :: r => (parseNat? t).map (·, r)
+
+def pBool : P Bool := fun ts => (pNat ts).map (fun (n, r) => (n != 0, r))
+
+def pList {α : Type} (p : P α) : P (List α) := fun ts =>
+  match pNat ts with
+  | none => none
+  | some (n, r) =>
+    let rec go : Nat → List String → List α → Option (List α × List String)
+      | 0, r, acc => some (acc.reverse, r)
+      | k + 1, r, acc => match p r with
+        | none => none
+        | some (x, r') => go k r' (x :: acc)
+    go n r []
+
+def pPair {α β : Type} (p : P α) (q : P β) : P (α × β) := fun ts =>
+  match p ts with
+  | none => none
+  | some (a, r) => (q r).map (fun (b, r') => ((a, b), r'))
+
+def pKey : P Key := fun ts =>
+  match pNat ts with
+  | some (k, r) => match pNat r with
+    | some (pn, r) => match pNat r with
+      | some (nm, r) =>
+        let key : Option Key := match k with
+          | 0 => some (.pdir pn) | 1 => some (.acc pn) | 2 => some (.order pn) | 3 => some (.energy pn)
+          | 4 => some (.traj pn) | 5 => some (.tfile pn nm) | 6 => some (.wfile nm) | _ => none
+        key.map (·, r)
+      | none => none
+    | none => none
+  | none => none
+
+def pFState : P FileState := fun ts =>
+  match pPair pNat pNat ts with
+  | some ((t, c), r) =>
+    let s : Option FileState := match t with
+      | 0 => some .absent | 1 => some .dir | 2 => some .empty | 3 => some (.part c) | 4 => some (.complete c)
+      | _ => none
+    s.map (·, r)
+  | none => none
+
+def pPInfo : P PathInfo := fun ts =>
+  match pPair pNat (pPair pNat (pList (pPair pNat pNat))) ts with
+  | some ((pn, cid, fs), r) => some ({ pn := pn, cid := cid, files := fs }, r)
+  | none => none
+
+def pJob : P Job := fun ts =>
+  (pPair (pList pNat) (pList pNat) ts).map (fun ((a, b), r) => ({ ens := a, paths := b }, r))
+
+def optOf (n : Nat) : Option Nat := if n = 0 then none else some (n - 1)
+
+def pRec : P Rec := fun ts =>
+  match pPair pNat (pPair pNat (pPair (pList pNat) (pPair pNat (pList pJob)))) ts with
+  | some ((cs, rf, act, tn, lk), r) =>
+    some ({ cstep := cs, restartedFrom := optOf rf, active := act, trajNum := tn, locked := lk }, r)
+  | none => none
+
+def pRFile : P RFile := fun ts =>
+  match pNat ts with
+  | some (0, r) => some (.absent, r)
+  | some (1, r) => some (.empty, r)
+  | some (2, r) => some (.part, r)
+  | some (3, r) => (pRec r).map (fun (x, r') => (.complete x, r'))
+  | _ => none
+
+def pDisk : P Disk := fun ts =>
+  match pPair (pList (pPair pKey pFState)) (pPair (pList pNat) (pPair pNat (pPair pBool (pPair pRFile pRFile)))) ts with
+  | some ((fs, rows, g, t, rf, tf), r) =>
+    some ({ files := fs, data := { rows := rows, garbled := g, torn := t }, restart := rf, tmp := tf }, r)
+  | none => none
+
+def pCfg : P Cfg := fun ts =>
+  match pPair pNat (pPair pBool (pPair pBool pNat)) ts with
+  | some ((n, a, b, v), r) =>
+    some ({ n := n, deleteOld := a, deleteAll := b, variant := if v = 0 then .asIs else .repaired }, r)
+  | none => none
+
+def pOld : P Old := fun ts =>
+  (pPair pNat (pList pNat) ts).map (fun ((a, b), r) => ({ pn := a, names := b }, r))
+
+def pMem : P Mem := fun ts =>
+  match pPair pNat (pPair pNat (pPair (pList pPInfo) (pPair pNat (pPair (pList pOld) (pList pJob))))) ts with
+  | some ((cs, rf, live, tn, olds, lk), r) =>
+    some ({ cstep := cs, restartedFrom := optOf rf, live := live, trajNum := tn, olds := olds, locked := lk }, r)
+  | none => none
+
+def pAcc : P Acc := fun ts =>
+  match pPair pPInfo (pPair pNat (pList (pPair pNat pNat))) ts with
+  | some ((o, c, fs), r) => some ({ old := o, cid := c, files := fs }, r)
+  | none => none
+
+def pChoice : P Choice := fun ts =>
+  match pPair (pList pAcc) (pPair (pList pPInfo) (pPair (pList pJob) (pPair pBool (pPair pNat pBool)))) ts with
+  | some ((a, nl, lk, inc, h, t), r) =>
+    some ({ accs := a, newLive := nl, locked' := lk, inc := inc, halfRows := h, halfTorn := t }, r)
+  | none => none
+
+def pManifest : P Manifest := fun ts =>
+  (pList (pPair pNat (pList pNat)) ts).map (fun (tbl, r) =>
+    ((fun c => (tbl.find? (fun e => e.1 == c)).map (·.2)), r))
+
+/-! ### printing -/
+
+def sL {α : Type} (f : α → String) (xs : List α) : String := showList f xs
+
+def sKey : Key → String
+  | .pdir p => s!"0 {p} 0" | .acc p => s!"1 {p} 0" | .order p => s!"2 {p} 0" | .energy p => s!"3 {p} 0"
+  | .traj p => s!"4 {p} 0" | .tfile p n => s!"5 {p} {n}" | .wfile n => s!"6 0 {n}"
+
+def sFState : FileState → String
+  | .absent => "0 0" | .dir => "1 0" | .empty => "2 0" | .part c => s!"3 {c}" | .complete c => s!"4 {c}"
+
+def sPInfo (p : PathInfo) : String := s!"{p.pn} {p.cid} {sL (fun nc => s!"{nc.1} {nc.2}") p.files}"
+def sJob (j : Job) : String := s!"{sL toString j.ens} {sL toString j.paths}"
+def sOpt : Option Nat → String | none => "0" | some r => toString (r + 1)
+def sRec (r : Rec) : String :=
+  s!"{r.cstep} {sOpt r.restartedFrom} {sL toString r.active} {r.trajNum} {sL sJob r.locked}"
+def sRFile : RFile → String
+  | .absent => "0" | .empty => "1" | .part => "2" | .complete r => s!"3 {sRec r}"
+
+/-- distinct keys of an association list, first occurrence wins -/
+def dedupKeys : Files → List Key → Files
+  | [], _ => []
+  | (k, s) :: t, seen => if seen.contains k then dedupKeys t seen else (k, s) :: dedupKeys t (k :: seen)
+
+def sDisk (d : Disk) : String :=
+  let fs := (dedupKeys d.files []).filter (fun e => e.2 != .absent)
+  s!"{sL (fun e => s!"{sKey e.1} {sFState e.2}") fs} {sL toString d.data.rows} {d.data.garbled} {if d.data.torn then 1 else 0} {sRFile d.restart} {sRFile d.tmp}"
+
+def sMem (m : Mem) : String :=
+  s!"{m.cstep} {sOpt m.restartedFrom} {sL sPInfo m.live} {m.trajNum} {sL (fun o => s!"{o.pn} {sL toString o.names}") m.olds} {sL sJob m.locked}"
+
+def sEffect : Effect → String
+  | .mkdir k => s!"mkdir:{sKey k}" | .openW k => s!"openw:{sKey k}" | .write k c => s!"write:{sKey k}:{c}"
+  | .remove k => s!"remove:{sKey k}" | .move s t => s!"move:{sKey s}:{sKey t}" | .rmdir k => s!"rmdir:{sKey k}"
+  | .dataOpen => "dataopen" | .dataAppend rows h _ => s!"dataappend:{sL toString rows}:{h}"
+  | .rOpen t => s!"ropen:{if t then 1 else 0}" | .rWrite t _ => s!"rwrite:{if t then 1 else 0}"
+  | .rRename => "rrename"
+
+def sOutcome : Outcome → String
+  | .starts r => s!"starts:{r.cstep}" | .refuses => "refuses" | .startsFromZero => "startsFromZero"
+  | .raises => "raises"
+
+def b01 (b : Bool) : String := if b then "1" else "0"
+
+def squash (s : String) : String := s.replace " " ","
+
+def handle (toks : List String) : String :=
+  match toks with
+  | "step" :: rest =>
+    match pPair pCfg (pPair pMem (pPair pDisk pChoice)) rest with
+    | some ((cfg, m, d, c), []) =>
+      let es := stepEffs cfg m c d
+      s!"{sMem (stepMem cfg m c d)} | {sDisk (run es d)} | {sL (fun e => squash (sEffect e)) es}"
+    | _ => "bad-op"
+  | "crash" :: rest =>
+    match pPair pCfg (pPair pMem (pPair pDisk (pPair pChoice (pPair pManifest (pPair pNat pBool))))) rest with
+    | some ((cfg, m, d, c, M, k, half), []) =>
+      let d' := crashStep cfg m c d k half
+      let out := restartOutcome M .restartToml d'
+      let out0 := restartOutcome M .infretisToml d'
+      let (recS, present, rows, restored) := match d'.restart with
+        | .complete r =>
+          let mem := restore M r d'.files
+          (sRec r,
+           r.active.all (fun a => (loadPath M d'.files a).isSome) && mem.live.all (pathOK d'.files),
+           rowsOK d'.data r.active, sMem mem)
+        | _ => ("-", false, false, "-")
+      s!"{sDisk d'} | out={sOutcome out} out0={sOutcome out0} present={b01 present} rows={b01 rows} trunc={b01 (inTruncWindow cfg m c d k)} rowwin={b01 (inRowWindow cfg m c d k half)} | {recS} | {restored}"
+    | _ => "bad-op"
+  | _ => "bad-op"
 
 def main : IO Unit := mainWith handle
